@@ -29,10 +29,19 @@ ASSUMPTIONS = ["all text is printable ASCII",
                "locations the layout judgement is correspondence with C02's text, not an independent expectation",
                "the independent reader accepts lines of any length (Build never wraps qualifier values; a 600-letter /translation is one line) and "
                "reads the LOCUS line by tokens, not by NCBI's LOCUS columns (Build separates the fields by five blanks)",
-               "the class of the known finding C03-blank-run-at-wrap and the predicted record (expectedBack) are computed with the writer MODEL's "
-               "WrapString; the tag is given only when the REAL reply (strict reader, Parse(Build(x)), Write/Read) equals that prediction",
-               "a name-less record is tagged C03-nameless-locus only when everything else is as predicted: with a length the strict reader must "
-               "return exactly the predicted record (name = the length); without one it must reject the text and accept it with the predicted LOCUS line",
+               "a known finding is identified by the input class and by WHERE the reply fails, not by the bytes the present code writes: a failing "
+               "record of class C03-blank-run-at-wrap (syntactic, computed with the writer MODEL's WrapString) is tagged when every text read back "
+               "(strict reader, Parse(Build(x)), Write/Read) is the one given, except that a text that loses a blank at a wrap point may differ in its "
+               "blanks only; a failing name-less record is tagged C03-nameless-locus when it fails in the LOCUS line / locus fields only (with the LOCUS "
+               "line of the same record under a placeholder name in its place the strict reader returns the record; Parse(Build(x)) agrees outside the "
+               "locus). A difference anywhere else is an ordinary FAIL. On a tagged case the writer's bytes are not compared with the model's (the model "
+               "mirrors the defect, which the property does not demand; name-less: only the LOCUS line may differ)",
+               "layout domain: an extra keyword has at most 11 letters and a feature key at most 15 (the layout sets a key off from what follows by a blank; "
+               "Build glues a longer one to its text, and Parse(Build(x)) already fails there); a feature without cached text carries a structure that is a "
+               "location (wfLoc: no Join node without operands, no span on a node with operands) — for anything else the property demands nothing of the "
+               "location column. The parser model is compared with the real parser where the round trip is demanded (wfSeqJ); `img`: the cached text must "
+               "denote the reported structure when it is a location text (INSDC grammar, 3' marker on either side) — what parseLocation makes of `bX`, "
+               "`acc:1..4`, `3^4` no property constrains",
                "an `img` / `img01` text on which genbank.Parse does not return although the parser model (C01) and parseLocation (C02) read it is a FAIL",
                "Write/Read is a history on ONE path: a longer record is written first, then the record under test; the file must equal Build(x), "
                "Read and ReadMulti must return the record, and a fresh path must get the same bytes. ReadMulti is compared only when no inner line "
@@ -508,8 +517,8 @@ LEVEL_TEXT = ("Determinism (all map iteration orders), the wrap/unwrap inversion
               "expresses (parse_build_partial) and is judged on the REAL parser for every case (real Parse(real Build(x)) ≈ x, Write/Read "
               "through a file); the parser model itself is compared with the real parser on every written text.")
 LEVEL_NOTE = ("Share of the thorough tier's judged cases inside the theorems' domains (class tags /lay and /pb in the evidence's class histogram; "
-              "last thorough run, 15671 judged): build_strict_layout_partial 90.7 % (all but the two known findings, 9.3 %; on these the exact result / the failure "
-              "is a theorem too: build_strict_layout_exact, blank_run_class_fails, nameless_class_fails), parse_build_partial 83.7 % "
+              "last thorough run, 15664 judged): build_strict_layout_partial 91.2 % (all but the two known findings, 8.8 %; on these the exact result / the failure "
+              "is a theorem too: build_strict_layout_exact, blank_run_class_fails, nameless_class_fails), parse_build_partial 84.4 % "
               "(the rest: the two known findings, plus 6.9 %: structural locations outside locProved — a {0,0} / reversed / negative span below an operator, "
               "join(x) with one operand — and, 0.1 %, quotation marks in qualifier keys, location texts that are not one expression, a "
               "REFERENCE line broken at its own two blanks); 15 % of the cases carry own / unset reference numbers, all inside the theorems. Trusted: Lean kernel; harness + pm_C03 judge; the hand transcription of go-wordwrap and of Build (tied by correspondence on every "
